@@ -164,4 +164,113 @@ structure LayoutOk (o : Obj) : Prop where
       s.offset.toNat ≤ g.offset.toNat → g.offset.toNat < s.offset.toNat + s.size.toNat →
       s.addr + (g.offset - s.offset) = g.vaddr
 
+/-! ### `validate` only reads a few header fields -/
+
+/-- the section header fields `validate` reads -/
+def vkey (s : SecBuf) : BitVec 32 × BitVec 64 × BitVec 64 × BitVec 64 := (s.stype, s.size, s.offset, s.addr)
+/-- the program header fields `validate` reads -/
+def vgkey (g : Seg) : BitVec 32 × BitVec 64 × BitVec 64 × BitVec 64 := (g.stype, g.filesz, g.offset, g.vaddr)
+
+theorem overlapPair_vkey {a a' b b' : SecBuf} (ha : vkey a' = vkey a) (hb : vkey b' = vkey b) :
+    overlapPair a' b' = overlapPair a b := by
+  simp only [vkey, Prod.mk.injEq] at ha hb
+  unfold overlapPair
+  rw [ha.1, ha.2.1, ha.2.2.1, hb.1, hb.2.1, hb.2.2.1]
+
+theorem overlapRow_vkey (a a' : SecBuf) (ha : vkey a' = vkey a) (l l' : List SecBuf)
+    (h : l'.map vkey = l.map vkey) (i n : Nat) :
+    ((l'.zipIdx n).filterMap fun (b, j) => if overlapPair a' b then some (Complaint.overlap i j) else none) =
+    ((l.zipIdx n).filterMap fun (b, j) => if overlapPair a b then some (Complaint.overlap i j) else none) := by
+  induction l generalizing l' n with
+  | nil =>
+    cases l' with
+    | nil => rfl
+    | cons x xs => simp at h
+  | cons b rest ih =>
+    cases l' with
+    | nil => simp at h
+    | cons b' rest' =>
+      simp only [List.map_cons, List.cons.injEq] at h
+      simp only [List.zipIdx_cons, List.filterMap_cons, overlapPair_vkey ha h.1, ih rest' h.2]
+
+theorem overlapComplaints_vkey (l l' : List SecBuf) (h : l'.map vkey = l.map vkey) (i : Nat) :
+    overlapComplaints l' i = overlapComplaints l i := by
+  induction l generalizing l' i with
+  | nil =>
+    cases l' with
+    | nil => rfl
+    | cons x xs => simp at h
+  | cons a rest ih =>
+    cases l' with
+    | nil => simp at h
+    | cons a' rest' =>
+      simp only [List.map_cons, List.cons.injEq] at h
+      unfold overlapComplaints
+      rw [overlapRow_vkey a a' h.1 rest rest' h.2, ih rest' h.2]
+
+theorem find?_vkey (p : SecBuf → Bool) (hp : ∀ a b, vkey a = vkey b → p a = p b) (l l' : List SecBuf)
+    (h : l'.map vkey = l.map vkey) : (l'.find? p).map vkey = (l.find? p).map vkey := by
+  induction l generalizing l' with
+  | nil =>
+    cases l' with
+    | nil => rfl
+    | cons x xs => simp at h
+  | cons a rest ih =>
+    cases l' with
+    | nil => simp at h
+    | cons a' rest' =>
+      simp only [List.map_cons, List.cons.injEq] at h
+      simp only [List.find?_cons, hp a' a h.1]
+      cases p a with
+      | true => simp [h.1]
+      | false => exact ih rest' h.2
+
+theorem segConflict_vkey (l l' : List SecBuf) (h : l'.map vkey = l.map vkey) (g g' : Seg) (hg : vgkey g' = vgkey g) :
+    segConflict l' g' = segConflict l g := by
+  simp only [vgkey, Prod.mk.injEq] at hg
+  unfold segConflict findProgSection
+  rw [hg.1, hg.2.1, hg.2.2.1, hg.2.2.2]
+  have hf := find?_vkey (fun s => find_prog_section_match s.stype g.offset s.offset s.size)
+    (by intro a b hab; simp only [vkey, Prod.mk.injEq] at hab; simp only [hab.1, hab.2.1, hab.2.2.1]) l l' h
+  cases h1 : l.find? (fun s => find_prog_section_match s.stype g.offset s.offset s.size) with
+  | none =>
+    rw [h1] at hf
+    cases h2 : l'.find? (fun s => find_prog_section_match s.stype g.offset s.offset s.size) with
+    | none => rfl
+    | some s' => rw [h2] at hf; simp at hf
+  | some s =>
+    rw [h1] at hf
+    cases h2 : l'.find? (fun s => find_prog_section_match s.stype g.offset s.offset s.size) with
+    | none => rw [h2] at hf; simp at hf
+    | some s' =>
+      rw [h2] at hf
+      simp only [Option.map_some, Option.some.injEq, vkey, Prod.mk.injEq] at hf
+      simp only [hf.2.2.1, hf.2.2.2]
+
+/-- `validate` reads only type, size, offset, address of the sections and type, file size, offset,
+    virtual address of the segments -/
+theorem validate_congr (o o' : Obj) (hs : o'.secs.map vkey = o.secs.map vkey)
+    (hg : o'.segs.map vgkey = o.segs.map vgkey) : validate o' = validate o := by
+  unfold validate
+  rw [overlapComplaints_vkey _ _ hs]
+  congr 1
+  have : ∀ (l l' : List Seg) (n : Nat), l'.map vgkey = l.map vgkey →
+      ((l'.zipIdx n).filterMap fun (g, h) => if segConflict o'.secs g then some (Complaint.conflict h) else none) =
+      ((l.zipIdx n).filterMap fun (g, h) => if segConflict o.secs g then some (Complaint.conflict h) else none) := by
+    intro l
+    induction l with
+    | nil =>
+      intro l' n h
+      cases l' with
+      | nil => rfl
+      | cons x xs => simp at h
+    | cons g rest ih =>
+      intro l' n h
+      cases l' with
+      | nil => simp at h
+      | cons g' rest' =>
+        simp only [List.map_cons, List.cons.injEq] at h
+        simp only [List.zipIdx_cons, List.filterMap_cons, segConflict_vkey _ _ hs g g' h.1, ih rest' _ h.2]
+  exact this _ _ 0 hg
+
 end ElfioVerif
